@@ -137,6 +137,16 @@ def dag(draw, *, max_nodes=12, leaf_profile='plain', kinds=None, p_alias=0.55,
     elif kind == 'dict':
       keys = draw(st.lists(st.sampled_from(['a', 'b', 'k', 1, 2]), unique=True, max_size=3))
       node = {'k': 'dict', 'keys': keys, 'items': [ref() for _ in keys]}
+    elif kind == 'kdict':
+      hs = leaves.leaf('hashable_ser')
+      keyst = st.one_of(hs, st.lists(hs, max_size=2).map(lambda l: {'$t': l}))
+      keys = draw(st.lists(keyst, min_size=1, max_size=3,
+                           unique_by=lambda k: _hash_key(leaves.dec(k))))
+      node = {'k': 'dict', 'keys': keys, 'items': [ref() for _ in keys]}
+    elif kind in ('set', 'fset'):
+      hs = leaves.leaf('hashable_ser')
+      items = draw(st.lists(hs, max_size=4, unique_by=lambda k: _hash_key(leaves.dec(k))))
+      node = {'k': kind, 'items': items}
     elif kind == 'ltuple':
       node = {'k': 'tuple', 'items': [{'leaf': draw(leaf_st)} for _ in range(draw(st.integers(1, 3)))]}
     elif kind == 'ntuple':
@@ -169,6 +179,14 @@ def dag(draw, *, max_nodes=12, leaf_profile='plain', kinds=None, p_alias=0.55,
       raise ValueError(kind)
     nodes.append(node)
   return {'nodes': nodes, 'root': len(nodes) - 1}
+
+
+def _hash_key(v):
+  """Python dict/set key identity: 1 == 1.0 == True, 0.0 == -0.0."""
+  try:
+    return ('h', hash(v), v)
+  except TypeError:
+    return ('u', repr(v))
 
 
 def _internable_node(nodes, j):
